@@ -160,7 +160,7 @@ def main():
         'hooks': {
             'guard': 'FALCON_VERIF',
             'enable': 'no source hooks: every seam (ASGI receive/send, wsgi.input, event loop, router lock, io/os in static routes) is reachable from outside; checks import a pure-Python mirror of /repo/falcon/**/*.py',
-            'baseline_off_cmd': 'cd /repo && /venv/bin/python -m pytest -q -p no:cacheprovider --timeout=900 tests',
+            'baseline_off_cmd': 'cd /repo && /venv/bin/python -m pytest -ra -q -p no:cacheprovider --timeout=900 --continue-on-collection-errors',
             'source_commits': [],
             'add_only': True,
         },
